@@ -172,9 +172,10 @@ static Level fam_bigvalues(int maxnodes) {
           }};
 }
 static Level fam_literals() {
-  return {"literal-forms", [=](const CB &cb) {
-            std::vector<std::string> lits = {"2147483644", "2147483645", "2147483646", "2147483647", "2147483648", "2147483649", "4294967295", "4294967296", "4294967297",
-                                             "9223372036854775807", "9223372036854775808", "100000000000000000000", "10000000000000000000000000000000000000000", "0", "7"};
+  return {"literal-forms (incl. digit-length ladder 1..40)", [=](const CB &cb) {
+            std::vector<std::string> lits; for (int n = 1; n <= 40; n++) { lits.push_back(std::string(n, '9')); lits.push_back("1" + std::string(n - 1, '0')); }
+            for (std::string extra : {"2147483644", "2147483645", "2147483646", "2147483647", "2147483648", "2147483649", "4294967295", "4294967296", "4294967297",
+                                             "9223372036854775807", "9223372036854775808", "100000000000000000000", "10000000000000000000000000000000000000000", "0", "7"}) lits.push_back(extra);
             for (auto &l : lits) {
               cb(single("x0 := " + l + "\n"));
               cb(single("x0 := x0 + " + l + "\n"));
